@@ -7,7 +7,10 @@ and every type a few fragments whose *values* its decoder / validator rejects (B
 attempt).  Two families of histories on one factory come on top: look-alike overrides (LOOKALIKE: configs that print
 alike but differ in type / structure) and named templates (NT_SITES: template texts that declare and use
 `define` / `block` / `template` with the same name defined differently in prototype, overrides and other mechanisms),
-each with a grid (`lookalike_grid`, `named_grid`) for the targeted search."""
+each with a grid (`lookalike_grid`, `named_grid`) for the targeted search.  A third family varies what the HTTP client
+of an endpoint is built from (`retry`, `http_cache.enabled`, `http_cache.default_ttl`: CLIENT_SETTINGS) over several
+mechanisms of one process that talk to the same host, and observes the requests the endpoint receives
+(`gen_client_case`, `client_grid`)."""
 
 SRV = "http://SERVER"
 
@@ -700,6 +703,122 @@ def named_grid(rng):
                 for cat, plan in shapes:
                     cases.append({"fam": "mech", "catalogue": copy_of(cat),
                                   "ops": named_ops(plan, {e["id"]: req for e in cat})})
+    return cases
+
+
+# ---------------------------------------------------------------------------------------------------------------
+# endpoint clients: what `Endpoint.CreateClient` builds the HTTP client of a request from - `retry`,
+# `http_cache.enabled`, `http_cache.default_ttl` - differs between the mechanisms of one process that talk to the SAME
+# host.  Their endpoints are `SERVER/count/<id>` (answers like `/echo`, the same every time, without freshness
+# information, and counts the requests it receives) or `SERVER/count/busy/<id>` (503 to everything).  Every object is
+# executed several times, always with the same request per catalogue entry and with a cache of its own, interleaved
+# with the executions of the others: the requests its endpoint receives have to be those its OWN settings mean -
+# a response reused for as long as ITS `default_ttl` says (not at all without one), a request repeated iff ITS
+# endpoint has `retry` - whatever was executed before.
+
+CLIENT_TYPES = [("contextualizer", "generic"), ("authorizer", "remote"), ("authenticator", "generic")]
+HTTP_CACHE = [None, {"enabled": True}, {"enabled": True, "default_ttl": "1h"}, {"enabled": True, "default_ttl": "30m"},
+              {"enabled": True, "default_ttl": "0s"}, {"enabled": False, "default_ttl": "1h"}, {"enabled": False}]
+RETRY = [None, {"give_up_after": "5ms", "max_delay": "1ms"}, {"give_up_after": "4ms", "max_delay": "2ms"}]
+CLIENT_SETTINGS = [(hc, rt) for hc in HTTP_CACHE for rt in RETRY[:2]]
+CLIENT_OVERRIDES = {
+    ("contextualizer", "generic"): [{"cache_ttl": "1h"}, {"cache_ttl": "0s"}, {"continue_pipeline_on_error": True},
+                                    {"values": {"c": "w"}}, {"payload": "q"}, {}],
+    ("authorizer", "remote"): [{"cache_ttl": "1h"}, {"cache_ttl": "0s"}, {"values": {"c": "w"}}, {"payload": "q"},
+                               {"forward_response_headers_to_upstream": ["Content-Type"]}, {}],
+    ("authenticator", "generic"): [{"cache_ttl": "1h"}, {"cache_ttl": "0s"}, {"allow_fallback_on_error": True}, {}],
+}
+CLIENT_REQ = {"method": "GET", "path": "/x", "headers": {"Authorization": "tok1", "X-User": "u7", "X-A": "1"},
+              "cookies": {"sid": "s9", "c1": "v1"}, "sub": {"id": "u2", "attrs": {"role": "admin"}}}
+
+
+def client_entry(rng, kind, typ, idx, http_cache, retry, method="GET", busy=False, cache_ttl="0s", payload=False):
+    """a catalogue entry of the type whose endpoint is an observed one with the given client settings"""
+    e, _, _ = gen_entry(rng, kind, typ, idx)
+    cfg = e["config"]
+    key = "identity_info_endpoint" if kind == "authenticator" else "endpoint"
+    ep = cfg[key]
+    ep["url"] = SRV + ("/count/busy/" if busy else "/count/") + e["id"]
+    ep["method"] = method
+    ep.pop("http_cache", None)
+    ep.pop("retry", None)
+    if http_cache is not None:
+        ep["http_cache"] = copy_of(http_cache)
+    if retry is not None:
+        ep["retry"] = copy_of(retry)
+    cfg["cache_ttl"] = cache_ttl
+    cfg.pop("expressions", None)          # nothing that decides on the response: the traffic is what is observed
+    if not payload:
+        cfg.pop("payload", None)
+        if (kind, typ) == ("authorizer", "remote"):
+            ep.setdefault("headers", {"X-K": "k1"})     # a remote authorizer needs a payload or endpoint headers
+    elif "payload" not in cfg:
+        cfg["payload"] = "p"
+    return e
+
+
+def client_ops(plan, execs):
+    """plan: creations [(entry, config or None)]; execs: handles in the order they are executed"""
+    ops = [{"op": "create", "kind": e["kind"], "id": e["id"], "config": copy_of(conf)} for e, conf in plan]
+    ops += [{"op": "exec", "h": h, "req": copy_of(CLIENT_REQ)} for h in execs]
+    return ops
+
+
+def gen_client_case(rng):
+    """2-3 mechanisms talking to the same host with different client settings, some rule-level variants, every
+    object executed 2-3 times in a random interleaving"""
+    n = rng.choice([2, 2, 3])
+    busy_case = maybe(rng, 0.2)
+    entries, plan = [], []
+    # settings that differ in one respect only are the interesting neighbours: draw from a small pool per case
+    pool = [pick(rng, HTTP_CACHE) for _ in range(2)]
+    if pool[0] == pool[1]:
+        pool[1] = pick(rng, [h for h in HTTP_CACHE if h != pool[0]])
+    rpool = [pick(rng, RETRY), pick(rng, RETRY)] if busy_case or maybe(rng, 0.3) else [pick(rng, RETRY)] * 2
+    for idx in range(n):
+        kind, typ = pick(rng, CLIENT_TYPES) if idx == 0 or maybe(rng, 0.4) else (entries[0]["kind"], entries[0]["type"])
+        e = client_entry(rng, kind, typ, idx, pool[idx % 2] if idx < 2 or maybe(rng) else pick(rng, HTTP_CACHE),
+                         rpool[idx % 2], method="GET" if maybe(rng, 0.85) else "POST", busy=busy_case and maybe(rng, 0.7),
+                         cache_ttl="0s" if maybe(rng, 0.8) else "1h", payload=maybe(rng, 0.15))
+        entries.append(e)
+        plan.append((e, None))
+        if maybe(rng, 0.35):
+            plan.append((e, pick(rng, CLIENT_OVERRIDES[(kind, typ)])))
+    rng.shuffle(plan)
+    execs = [h for h in range(len(plan)) for _ in range(rng.choice([2, 2, 3]))]
+    rng.shuffle(execs)
+    return {"fam": "mech", "catalogue": entries, "ops": client_ops(plan, execs)}
+
+
+def client_grid(rng):
+    """every type x every ordered pair of different client settings (two mechanisms of one process, the first one
+    executed first, then the second one twice, then the first one again), on an endpoint that answers and - where the
+    pair differs in `retry` - on one that does not; plus pairs of mechanisms of different types.  The histories tried
+    when the footprint reports state written on the request path or new package-level state"""
+    cases = []
+
+    def pair(t0, t1, s0, s1, busy):
+        e0 = client_entry(rng, t0[0], t0[1], 0, s0[0], s0[1], busy=busy)
+        e1 = client_entry(rng, t1[0], t1[1], 1, s1[0], s1[1], busy=busy)
+        cases.append({"fam": "mech", "catalogue": [e0, e1],
+                      "ops": client_ops([(e0, None), (e1, None)], [0, 1, 1, 0, 0])})
+
+    for t in CLIENT_TYPES:
+        for s0 in CLIENT_SETTINGS:
+            for s1 in CLIENT_SETTINGS:
+                if s0 == s1:
+                    continue
+                if s0[1] == s1[1]:
+                    pair(t, t, s0, s1, False)
+                elif s0[0] == s1[0] and s0[0] in (None, {"enabled": True, "default_ttl": "1h"}):
+                    pair(t, t, s0, s1, True)
+    mixed = [(CLIENT_TYPES[0], CLIENT_TYPES[1]), (CLIENT_TYPES[1], CLIENT_TYPES[2]), (CLIENT_TYPES[2], CLIENT_TYPES[0])]
+    for t0, t1 in mixed:
+        for hc0, hc1 in [(HTTP_CACHE[2], HTTP_CACHE[1]), (HTTP_CACHE[1], HTTP_CACHE[2]), (HTTP_CACHE[2], HTTP_CACHE[4]),
+                         (HTTP_CACHE[0], HTTP_CACHE[2]), (HTTP_CACHE[2], HTTP_CACHE[0])]:
+            pair(t0, t1, (hc0, None), (hc1, None), False)
+        pair(t0, t1, (None, RETRY[1]), (None, None), True)
+        pair(t0, t1, (None, None), (None, RETRY[1]), True)
     return cases
 
 
